@@ -955,6 +955,35 @@ def check_signature_subject(prog: Program, rep: Report):
         rep.undecided("R10.5", "typelib.py.inspection.cached_signature", sig.loc, "cached_signature not found", detail="cached")
 
 
+def r10_6(prog: Program, rep: Report):
+    """inspection.signature() takes *any* callable: functions, bound methods, callable instances.  The printed form of a bound
+    method contains the repr of its instance, so a predicate that reads str(obj) (a '[' in it, a 'typing.' prefix) answers
+    about the instance's data.  Every predicate that guards a special-cased signature must be free of the object's text."""
+    f = prog.function("typelib.py.inspection.signature")
+    obj = ("param", f.params[0])
+    textual = []
+    n = 0
+    for p in P.paths_of(prog, f):
+        special = p.exit[0] == "return" and not T.is_call_to(p.exit[1], "inspect.signature")
+        if not special:
+            continue
+        for g, pol in p.guards():
+            for x in T.walk(g):
+                if x[0] == "call" and x[2][:1] == (obj,) and T.refname(x[1]) in prog.functions:
+                    n += 1
+                    callee = prog.functions[T.refname(x[1])]
+                    cp = ("param", callee.params[0])
+                    reads_text = any(
+                        T.contains(tm, lambda y: (T.is_call_to(y, "builtins.str", "builtins.repr") and y[2][:1] == (cp,)) or (y[0] == "fmt" and y[1] == cp))
+                        for q in P.paths_of(prog, callee) for tm in q.all_terms()
+                    )  # fmt: skip
+                    if reads_text and pol:
+                        # harmless only when the same path also knows the object is a class
+                        if not any(val and T.is_call_to(a, "inspect.isclass") for a, val in T.derive_atoms(p.guards())):
+                            textual.append(callee.name)
+    rep.check(not textual, "R10.6", f.qualname, f.loc, f"the {n} predicate(s) guarding the special-cased signatures do not read the object's text (or apply to classes only)", f"signature() special-cases an object when {sorted(set(textual))[0] if textual else ''}(obj) holds, and that predicate reads str(obj): the text of a bound method or callable instance contains the repr of the instance, so bind(svc.add) for a dataclass instance with a list field (repr 'Service(seen=[])') takes the tuple branch and raises TypeError: issubclass() arg 1 must be a class", detail="no-text-predicates")
+
+
 def run(prog: Program, rep: Report, tier: str):
     global MAXN
     MAXN = 3 if tier == "thorough" else 2
@@ -963,6 +992,8 @@ def run(prog: Program, rep: Report, tier: str):
     rep.rule("R10.3", "all 32 matrix rows route every accepted call shape to the parameter's own unmarshaller", floor=33)
     rep.rule("R10.4", "bind/wrap/BoundRoutine dataflow, metadata and parameter hygiene of the forwarding wrappers", floor=13)
     rep.rule("R10.5", "the signature bound is the signature of the callable that is called", floor=3)
+    rep.rule("R10.6", "the signature helper decides by what the object is, never by how it prints", floor=1)
+    r10_6(prog, rep)
     summaries = binder_summaries(prog, rep)
     f, facts = factory_facts(prog, rep)
     if all(k in facts for k in KINDS):
